@@ -593,6 +593,21 @@ func (c *FuncCtx) evalOld(st *State, e ast.Expr) *Val {
 	}
 	tmp := st.old.clone()
 	tmp.bound = st.bound
+	for k := range st.bound {
+		if strings.HasPrefix(k, "$oldparam:") {
+			nb := map[string]*Val{}
+			for kk, vv := range st.bound {
+				nb[kk] = vv
+			}
+			for kk, vv := range st.bound {
+				if strings.HasPrefix(kk, "$oldparam:") {
+					nb[strings.TrimPrefix(kk, "$oldparam:")] = vv
+				}
+			}
+			tmp.bound = nb
+			break
+		}
+	}
 	tmp.pc = st.pc
 	tmp.facts = st.facts
 	tmp.guard = st.guard
@@ -1079,6 +1094,12 @@ func (c *FuncCtx) applyContract(st *State, con *Contract, sig *types.Signature, 
 				c.eng.declareUF(uf, fmt.Sprintf("(declare-fun %s (%s) %s)", uf, strings.Join(asorts, " "), srt))
 				term = app(uf, argTerms...)
 			}
+		} else if sl, ok := under(rt).(*types.Slice); ok {
+			// a returned slice: where its window starts is unobservable, take 0
+			rb := c.fresh("r_"+key+"_base", fmt.Sprintf("(Array Int %s)", c.eng.sortOf(sl.Elem())))
+			rl := c.fresh("r_"+key+"_len", "Int")
+			rn := c.fresh("r_"+key+"_nil", "Bool")
+			term = app("mk_"+srt, rb, "0", rl, rn)
 		} else {
 			term = c.fresh("r_"+key, srt)
 		}
@@ -1092,8 +1113,67 @@ func (c *FuncCtx) applyContract(st *State, con *Contract, sig *types.Signature, 
 	if len(results) == 1 {
 		st.bound["$result"] = results[0]
 	}
+	// ghost results: names the header declares beyond the real signature are
+	// witnesses (fresh values constrained by the ensures clauses only)
+	if con.Decl.Type.Results != nil {
+		gi := 0
+		for _, f := range con.Decl.Type.Results.List {
+			for _, n := range f.Names {
+				if gi >= sig.Results().Len() {
+					gt := c.resolveSpecType(f.Type)
+					gs := c.eng.sortOf(gt)
+					var term string
+					if sl, ok := under(gt).(*types.Slice); ok {
+						term = app("mk_"+gs, c.fresh("w_"+n.Name, fmt.Sprintf("(Array Int %s)", c.eng.sortOf(sl.Elem()))), "0", c.fresh("w_"+n.Name+"_len", "Int"), tFalse)
+					} else {
+						term = c.fresh("w_"+n.Name, gs)
+					}
+					st.bound[n.Name] = &Val{T: gt, S: term, Sort: gs}
+				}
+				gi++
+			}
+		}
+	}
 	if con.Traced {
 		c.traceResults(st, key, results)
+	}
+	for _, cl := range con.clauses("updates") {
+		for _, pname := range splitTop(cl.Name, ',') {
+			pre, ok := st.bound[pname]
+			if !ok {
+				limitf("updates %s: no such parameter in contract %s", pname, key)
+			}
+			// position of the parameter in the header
+			pos := -1
+			i := 0
+			for _, f := range con.Decl.Type.Params.List {
+				for _, n := range f.Names {
+					if n.Name == pname {
+						pos = i
+					}
+					i++
+				}
+			}
+			if con.Decl.Recv == nil && recv != nil {
+				pos-- // header lists the receiver as first parameter
+			}
+			if pos < 0 || pos >= len(c.curCallArgs) {
+				limitf("updates %s: cannot find the argument expression at this call of %s", pname, key)
+			}
+			nv := &Val{T: pre.T, S: c.fresh("upd_"+pname, pre.Sort), Sort: pre.Sort}
+			st.assume(c.eng.typeFacts(nv.S, pre.T))
+			if sl, ok := under(pre.T).(*types.Slice); ok {
+				// same window, new contents
+				nb := c.fresh("upd_"+pname, fmt.Sprintf("(Array Int %s)", c.eng.sortOf(sl.Elem())))
+				nv.S = app("mk_"+pre.Sort, nb, acc("off_"+pre.Sort, pre.S), acc("len_"+pre.Sort, pre.S), acc("nil_"+pre.Sort, pre.S))
+			}
+			saved2 := st.bound
+			st.bound = saved
+			c.assign(st, c.curCallArgs[pos], nv)
+			st.bound = saved2
+			st.bound["$oldparam:"+pname] = pre
+			st.bound[pname] = nv
+		}
 	}
 	for _, cl := range con.clauses("ensures") {
 		v := c.eval(st, cl.Expr)
@@ -1353,6 +1433,23 @@ func (c *FuncCtx) chainValue(st *State, stmts []ast.Stmt, sig *types.Signature) 
 // ----------------------------------------------------- external calls ---
 
 func (c *FuncCtx) callExternal(st *State, key string, fn *types.Func, recv *Val, x *ast.CallExpr) []*Val {
+	// a contract specialised on the static type of the first argument
+	// (sort.Sort.commandList) takes precedence and sees the argument unboxed
+	if len(x.Args) == 1 && !c.inSpec(st) {
+		if t := c.typeOf(x.Args[0]); t != nil {
+			if n, ok := t.(*types.Named); ok {
+				if sc := c.eng.spec.Contracts[key+"."+n.Obj().Name()]; sc != nil {
+					v := c.eval(st, x.Args[0])
+					savedArgs := c.curCallArgs
+					c.curCallArgs = x.Args
+					sig := types.NewSignatureType(nil, nil, nil, types.NewTuple(types.NewVar(token.NoPos, nil, "data", t)), nil, false)
+					r := c.applyContract(st, sc, sig, nil, []*Val{v}, x.Pos(), key+"."+n.Obj().Name())
+					c.curCallArgs = savedArgs
+					return r
+				}
+			}
+		}
+	}
 	con := c.eng.spec.Contracts[key]
 	if con == nil {
 		limitf("%s: call of %s needs an assumed contract", c.eng.posStr(x.Pos()), key)
@@ -1362,7 +1459,11 @@ func (c *FuncCtx) callExternal(st *State, key string, fn *types.Func, recv *Val,
 	}
 	sig := fn.Type().(*types.Signature)
 	args := c.evalArgs(st, sig, x)
-	return c.applyContract(st, con, sig, recv, args, x.Pos(), key)
+	savedArgs := c.curCallArgs
+	c.curCallArgs = x.Args
+	r := c.applyContract(st, con, sig, recv, args, x.Pos(), key)
+	c.curCallArgs = savedArgs
+	return r
 }
 
 // callFuncValue: calling a func-typed variable or field. With a contract
